@@ -135,6 +135,11 @@ def session(bindir, rng, tag, tier):
 
 def run(prop, tier, seed, rep):
     rng = random.Random(seed * 1000003 + 18)
+    res = core.run_mc("MC_RadarUI", workers=8, timeout=3000, cache=False,
+                      env_extra={"GUARDS": "1", "MAXBURST": "3", "MAXSTEPS": "6" if tier == "quick" else "7", "TOUCH": "1", "REPLAY": "0"})
+    rep.add_model(res, "MC_RadarUI (ViewOnly, StatsOK)")
+    if not res["ok"]:
+        rep.mismatch("C18", "screen|model", "view_only", {"kind": "model", "violated": res["violated"], "tail": res["output_tail"][-600:]})
     bindir = core.build_apps()
     n = 16 if tier == "quick" else 500
     seeds = [rng.getrandbits(32) for _ in range(n)]
